@@ -59,7 +59,7 @@ func init() {
 			"documents that fail Load or Validate are discarded (counted); only documents passing Validate are in scope",
 			"hang = one message consuming more than 30 CPU-seconds; memory blow-up = 8 GiB address-space limit hit (both reported with the message)",
 		},
-		Shards:         func(string) int { return 18 }, // 16 workload shards + 2 probe shards (inputs that may kill the process, one process per fatal one)
+		Shards:         func(string) int { return 20 }, // 16 workload shards + 4 probe shards (inputs that may kill the process, one process per fatal one)
 		Run:            runC10,
 		Replay:         replayC10,
 		CaseCPUSeconds: 30,
@@ -522,10 +522,15 @@ func runC10(c *core.Ctx) {
 	registerHarnessFormats()
 	const workShards = 16
 	if c.Shard >= workShards {
-		if c.Shard == workShards {
+		switch c.Shard {
+		case workShards:
 			c10Probes(c)
-		} else {
+		case workShards + 1:
 			c10ProbeRecursiveDefault(c)
+		case workShards + 2:
+			c10ProbeCycleInDecoder(c, "parameter")
+		default:
+			c10ProbeCycleInDecoder(c, "form")
 		}
 		return
 	}
@@ -911,5 +916,43 @@ func c10Probes(c *core.Ctx) {
 	} else {
 		c.Note("probe doc2 did not load/validate: %v", err)
 		c.Cover("probes", "nonproductive-cycle-doc-rejected")
+	}
+}
+
+// c10ProbeCycleInDecoder: the non-productive schema cycle (a schema that is an alternative of itself) met by the decoders
+// that run before schema validation: the styled-parameter decoder (query ?q=1) and the form-urlencoded body decoder (v=1).
+// A satisfiable, harmless-looking schema: a string, or itself.
+func c10ProbeCycleInDecoder(c *core.Ctx, which string) {
+	c.ForceWAL()
+	cyc := gen.S{"A": gen.S{"anyOf": gen.Arr(gen.S{"$ref": "#/components/schemas/A"}, gen.S{"type": "string"})},
+		"F": gen.S{"type": "object", "anyOf": gen.Arr(gen.S{"$ref": "#/components/schemas/F"}, gen.S{"type": "object", "properties": gen.S{"v": gen.S{"type": "string"}}})}}
+	var doc gen.S
+	var req *http.Request
+	name := "nonproductive-schema-cycle-" + which + "-decoder"
+	if which == "parameter" {
+		doc = baseDoc(gen.S{"/a": gen.S{"get": gen.S{"responses": okResponses(), "parameters": gen.Arr(gen.S{"name": "q", "in": "query", "schema": gen.S{"$ref": "#/components/schemas/A"}})}}})
+		req = newReq("GET", "http://h.t/a?q=1", nil, nil)
+	} else {
+		doc = baseDoc(gen.S{"/a": gen.S{"post": gen.S{"responses": okResponses(), "requestBody": gen.S{"content": gen.S{"application/x-www-form-urlencoded": gen.S{"schema": gen.S{"$ref": "#/components/schemas/F"}}}}}}})
+		req = newReq("POST", "http://h.t/a", http.Header{"Content-Type": []string{"application/x-www-form-urlencoded"}}, []byte("v=1"))
+	}
+	doc["components"] = gen.S{"schemas": cyc}
+	d, err := loadDoc(doc)
+	if err != nil {
+		c.Cover("probes", name+"-doc-rejected")
+		return
+	}
+	router, err := gorillamux.NewRouter(d)
+	if err != nil {
+		return
+	}
+	c.Begin("probe:" + name + " " + req.Method + " " + req.URL.String())
+	c.Distinct("probe:" + name)
+	if in, err := reqInput(router, req, &openapi3filter.Options{}); err == nil {
+		c.Eval()
+		debug.SetMaxStack(64 << 20)
+		if pi := core.Guard(func() { openapi3filter.ValidateRequest(bgCtx, in) }); pi != nil {
+			c.Violate(core.PanicFeatures(pi), map[string]any{"probe": name}, pi.Stack)
+		}
 	}
 }
